@@ -15,8 +15,8 @@ from vlib.core import Family, Program, Harness
 SPECS = os.path.join(core.VERIF, "specs")
 
 BOUNDS = {
-    "quick": dict(L0_TAIL=2, L1_TAIL=3, L1_INT=4, L2=3, L2_TYPE=2, L3_SPEC=5, L3_SPEC_W=4, L3_FMT=4, L4=5),
-    "thorough": dict(L0_TAIL=3, L1_TAIL=4, L1_INT=6, L2=5, L2_TYPE=3, L3_SPEC=7, L3_SPEC_W=6, L3_FMT=6, L4=8),
+    "quick": dict(W_WS=2, A_L1=4, W_L1=2, A_INT=4, A_TYPE=3, A_L2=4, A_SPEC=5, W_SPEC=3, A_FMT=4, A_FS=5),
+    "thorough": dict(W_WS=3, A_L1=6, W_L1=4, A_INT=7, A_TYPE=4, A_L2=6, A_SPEC=8, W_SPEC=6, A_FMT=7, A_FS=8),
 }
 
 APPEND = '''
@@ -30,38 +30,41 @@ mod proofs;
 
 
 def harness_list(b):
-    def shape(p, w, s):
-        return "inputs: ASCII prefix <= %d bytes (every 7-bit value)%s, ASCII suffix <= %d bytes" % (
-            p, " + optionally one arbitrary Unicode scalar" if w else "", s)
+    def asc(n):
+        return "every ASCII string (all 7-bit bytes) of length <= %d" % n
+
+    def wide(lead, t):
+        return "%sone arbitrary Unicode scalar value + every ASCII tail of length <= %d" % ("<= 1 ASCII byte + " if lead else "", t)
     H = []
 
-    def add(name, fn, stubs, bound, cover=2, kind="proof"):
-        H.append(Harness(name, "%s(s) == spec(s) [remainder pointer+length and AST]" % fn, kind=kind, bounded=bound,
-                         fn="fmt::parsing::" + fn, cover_min=cover, stubs=stubs))
-    add("ob_any_char", "any_char", [], shape(0, True, b["L0_TAIL"]))
-    add("ob_take_any_char", "take_any_char", [], shape(0, True, b["L0_TAIL"]))
-    add("ob_char", "char(c) for every c", [], shape(0, True, b["L0_TAIL"]), cover=1)
-    add("ob_str2", "str(\"{{\"), str(\"x?\")", [], shape(3, False, 0), cover=1)
-    add("ob_one_of", "one_of(\"{}\")", [], shape(0, True, b["L0_TAIL"]), cover=1)
-    add("ob_whitespaces", "whitespaces", [], shape(1, True, 2), cover=1)
-    add("ob_text", "text", [], shape(1, True, b["L1_TAIL"]))
-    add("ob_identifier", "identifier", ["XID tables -> uninterpreted predicate"], shape(1, True, b["L1_TAIL"]))
-    add("ob_identifier_mid", "identifier", ["XID tables -> uninterpreted predicate"], shape(2, True, 1))
-    add("ob_integer", "integer", [], shape(b["L1_INT"], False, 0))
-    add("ob_align", "align", [], shape(0, True, 1))
-    add("ob_sign", "sign", [], shape(0, True, 1))
-    add("ob_type", "type_", ["whitespaces"], shape(b["L2_TYPE"], True, 1))
-    add("ob_argument", "argument", ["identifier", "integer"], shape(b["L2"], True, 1))
-    add("ob_parameter", "parameter", ["argument"], shape(b["L2"], True, 1))
-    add("ob_count", "count", ["parameter", "integer"], shape(b["L2"], True, 1))
-    add("ob_precision", "precision", ["count"], shape(b["L2"], True, 1))
-    add("ob_format_spec", "format_spec", ["align", "sign", "count", "precision", "type_"], shape(b["L3_SPEC"], False, 0))
-    add("ob_format_spec_wide_fill", "format_spec", ["align", "sign", "count", "precision", "type_"], shape(0, True, b["L3_SPEC_W"]))
-    add("ob_format", "format", ["argument", "format_spec", "whitespaces"], shape(b["L3_FMT"], True, 1))
-    add("ob_maybe_format", "maybe_format", ["format"], shape(b["L3_FMT"], False, 0))
-    add("ob_format_string", "format_string", ["maybe_format", "text"], shape(b["L4"], False, 0), cover=3)
+    def add(name, fn, stubs, bound, cover=2):
+        H.append(Harness(name, "%s(s) == spec(s) [remainder pointer+length and AST]" % fn, bounded=bound,
+                         fn="fmt::parsing::" + fn.split("(")[0], cover_min=cover, stubs=stubs))
+    add("ob_any_char", "any_char", [], wide(False, 1))
+    add("ob_take_any_char", "take_any_char", [], wide(False, 1))
+    add("ob_char", "char(c) for every char c", [], wide(False, 1))
+    add("ob_str2", "str(\"{{\"), str(\"x?\")", [], asc(3))
+    add("ob_one_of", "one_of(\"{}\")", [], wide(False, 1))
+    add("ob_whitespaces", "whitespaces", [], wide(True, b["W_WS"]))
+    add("ob_text", "text", [], asc(b["A_L1"]))
+    add("ob_text_wide", "text", [], wide(True, b["W_L1"]))
+    add("ob_identifier", "identifier", ["XID tables"], asc(b["A_L1"]))
+    add("ob_identifier_wide", "identifier", ["XID tables"], wide(True, b["W_L1"]))
+    add("ob_integer", "integer", [], asc(b["A_INT"]))
+    add("ob_align", "align", [], wide(False, 1))
+    add("ob_sign", "sign", [], wide(False, 1))
+    add("ob_type", "type_", ["whitespaces"], asc(b["A_TYPE"]))
+    add("ob_argument", "argument", ["identifier", "integer"], asc(b["A_L2"]))
+    add("ob_parameter", "parameter", ["argument"], asc(b["A_L2"]))
+    add("ob_count", "count", ["parameter", "integer"], asc(b["A_L2"]))
+    add("ob_precision", "precision", ["count"], asc(b["A_L2"]))
+    add("ob_format_spec", "format_spec", ["align", "sign", "count", "precision", "type_"], asc(b["A_SPEC"]))
+    add("ob_format_spec_wide_fill", "format_spec", ["align", "sign", "count", "precision", "type_"], wide(False, b["W_SPEC"]))
+    add("ob_format", "format", ["argument", "format_spec", "whitespaces"], asc(b["A_FMT"]))
+    add("ob_maybe_format", "maybe_format", ["format"], asc(b["A_FMT"]))
+    add("ob_format_string", "format_string", ["maybe_format", "text"], asc(b["A_FS"]), cover=3)
     H.append(Harness("tot_integer_long", "integer(s) neither panics nor overflows on digit strings up to 21 chars", bounded="<= 21 digits",
-                     fn="fmt::parsing::integer", cover_min=1))
+                     fn="fmt::parsing::integer", cover_min=2))
     return H
 
 
@@ -81,7 +84,7 @@ def family(tier, seed, only=None):
         "C03", [prog],
         deps={"unicode-xid": '"0.2.2"'},
         kani_flags=["-Z", "stubbing"],
-        unwind=13,
+        unwind=None,
         level="model_checking",
         extra_files={"src/c03_spec.rs": open(os.path.join(SPECS, "fmt_spec.rs")).read(), "src/c03_proofs.rs": proofs},
         functions_under_contract=sorted({h.fn for h in hs}),
